@@ -99,8 +99,11 @@ def chain(ctx, model, parser):
                 if isinstance(n, ast.Assign) and isinstance(n.value, ast.Call) and norm(n.value.func) == "func_call":
                     n_calls += 1
                     a = n.value.args
-                    if not (norm(n.targets[0]) == "expr" and len(a) == 4 and norm(a[1]) == "expr"
-                            and isinstance(a[2], ast.Call)):
+                    operand_ok = len(a) == 4 and (isinstance(a[2], ast.Call) or (
+                        isinstance(a[2], ast.Name) and all(
+                            isinstance(d.value, ast.Call) for d in ast.walk(loops[0])
+                            if isinstance(d, ast.Assign) and norm(d.targets[0]) == a[2].id)))
+                    if not (norm(n.targets[0]) == "expr" and len(a) == 4 and norm(a[1]) == "expr" and operand_ok):
                         ok = False
             ok = ok and n_calls >= 1
         ctx.check("C02.chain", f, None, ok,
